@@ -224,7 +224,9 @@ func VerifC07History(k int, capMode int) {
 		}
 		// paths whose stores have the same shape (live ids and issued counts per mailbox) merge;
 		// different shapes stay separate so that map contents remain concrete
-		vrf.Regroup(ref.shape(names)*4 + mcap)
+		if step < k {
+			vrf.Regroup(ref.shape(names)*4 + mcap)
+		}
 	}
 	vrf.Join()
 	vrf.Cover("history-done")
